@@ -65,7 +65,12 @@ pub fn probe_decoders(bytes: &[u8], fault: &str, decs: &[(Opts, MessageDecoder)]
 /// Reassembler-side oracle: every 1-cut chunking (2-cut when the header or the length changed).
 pub fn probe_reassembler(bytes: &[u8], two_cuts: bool, rep: &mut Report) {
     let k = if two_cuts { 2 } else { 1 };
-    for buf in [20usize, bytes.len().max(20)] {
+    // buffer exactly as long as the byte string, one byte shorter (the packet the header announces may not fit) and
+    // the 20-byte minimum
+    let mut bufs = vec![20usize, bytes.len().max(20), bytes.len().saturating_sub(1).max(20)];
+    bufs.sort();
+    bufs.dedup();
+    for buf in bufs {
         super::c16::for_cuts(bytes.len(), k, &mut |cuts| super::c16::check(bytes, cuts, buf, "mutated-stream", rep));
     }
 }
@@ -86,7 +91,7 @@ pub fn run(ctx: &RunCtx) -> i32 {
             // the reassembler only reads the 20 header bytes and the total length: body-only faults behave like the seed
             let hdr_changed = m.len() != s.bytes.len() || m[..20.min(m.len())] != s.bytes[..20.min(m.len())];
             if hdr_changed {
-                probe_reassembler(m, m.len() <= 40, &mut r);
+                probe_reassembler(m, m.len() <= 28, &mut r);
             }
             r.sym(class);
         });
@@ -142,7 +147,7 @@ pub fn run(ctx: &RunCtx) -> i32 {
         rep,
         Finish {
             level: "fault_enumeration",
-            rule: format!("{} seeds (reference-encoded single / pair messages over the menus x tails, RFC 5769 vectors, unknown-attribute messages); every single fault of the alphabet {{bit flip, byte := 00/FF/7F/80, truncation to every length, 8 header-length edits, 7 edits of every attribute and nested length, 8 UTF-8 / quoting injections at every offset of every string value, delete / duplicate / move of every attribute}} at every position{}; each mutant decoded under 16 option combinations + no context (size relation and independence of trailing bytes checked on success), passed to get_input_text x3, and (when the 20 header bytes or the length changed; the reassembler reads nothing else) to the reassembler under every 1-cut (<=40 bytes: 2-cut) chunking x 2 buffers against the reference splitter; valid header + every 1-byte and {} 2-byte bodies; client part: see coverage.client. Non-trivial = distinct byte strings that at least one configuration decoded successfully and that satisfied the relations (plus distinct chunkings whose per-call results matched the splitter)", n_seeds, if thorough { " and all pairs of byte substitutions on seeds <=64 bytes" } else { "" }, if thorough { "every" } else { "4096" }),
+            rule: format!("{} seeds (reference-encoded single / pair messages over the menus x tails, RFC 5769 vectors, unknown-attribute messages); every single fault of the alphabet {{bit flip, byte := 00/FF/7F/80/01/02, truncation to every length, 8 header-length edits, 12 edits of every attribute length and 7 of every nested length, 14 UTF-8 / quoting injections at every offset of every string value, delete / duplicate / move of every attribute}} at every position{}; each mutant decoded under 16 option combinations + no context (size relation and independence of trailing bytes checked on success), passed to get_input_text x3, and (when the 20 header bytes or the length changed; the reassembler reads nothing else) to the reassembler under every 1-cut (<=28 bytes: 2-cut) chunking x 3 buffers (20, len-1, len) against the reference splitter; valid header + every 1-byte and {} 2-byte bodies; client part: see coverage.client. Non-trivial = distinct byte strings that at least one configuration decoded successfully and that satisfied the relations (plus distinct chunkings whose per-call results matched the splitter)", n_seeds, if thorough { " and all pairs of byte substitutions on seeds <=64 bytes" } else { "" }, if thorough { "every" } else { "4096" }),
             assumptions: vec!["the statement's 'random bytes' are replaced by these deterministic families".into()],
             required_symbols: vec!["bit-flip", "byte-substitution", "truncation", "header-length", "attribute-length", "nested-length", "string-injection", "attribute-delete", "attribute-duplicate", "attribute-move", "tiny-bodies", "client-deliveries", "long-term/retry-after-401-cookie", "short-term/learned-SHA256"],
             min_outcomes: 2,
